@@ -119,6 +119,7 @@ def run_case(spec, ctx, R):
     cls = spec["cls"]
     n = 1 + spec["idx"] % spec["maxn"] if spec["idx"] % 2 else int(rng.integers(2, spec["maxn"] + 1))
     A, herm, eigs = make(rng, cls, n)
+    A = gen.vary(A, spec["idx"])
     nrm = refq.fro(A)
     lam_or = embed.eigvalsh(A) if herm else None
     if spec["idx"] % 5 == 0:
